@@ -55,8 +55,17 @@ pub struct MW {
     pub w: World<StdApp>,
     /// client connections in creation order: (node, handle)
     pub conns: Vec<(usize, ConnectionHandle)>,
+    /// never-reused identity of each of them (handles are reused once a connection is forgotten)
+    pub serials: Vec<u64>,
     pub cfg: PairCfg,
     pub keylog: Arc<mtls::KeyLog>,
+}
+
+/// The slot of client connection `i`, alive or dead, by its never-reused serial
+fn slot_i(m: &MW, i: usize) -> Option<&crate::sim::Slot<StdApp>> {
+    let (n, ch) = m.conns[i];
+    let ser = m.serials[i];
+    m.w.nodes[n].conns.get(&ch).filter(|s| s.serial == ser).or_else(|| m.w.nodes[n].dead.iter().map(|(_, s)| s).find(|s| s.serial == ser))
 }
 
 pub fn build(base: Instant, s: &Scn, fates: BTreeMap<u64, Fate>) -> MW {
@@ -74,6 +83,7 @@ pub fn build(base: Instant, s: &Scn, fates: BTreeMap<u64, Fate>) -> MW {
     let x = w.add_node(2, cfg.cid_len, cfg.cid_lifetime, None, |_| {});
     let y = w.add_node(3, cfg.cid_len, cfg.cid_lifetime, None, |_| {});
     let mut conns = vec![];
+    let mut serials = vec![];
     // endpoint X opens two connections, endpoint Y one. With zero-length CIDs a client endpoint
     // can only have one connection per remote, so X's second connection moves to a third endpoint.
     let third = if s.cid_len == 0 { Some(w.add_node(4, 0, None, None, |_| {})) } else { None };
@@ -82,8 +92,9 @@ pub fn build(base: Instant, s: &Scn, fates: BTreeMap<u64, Fate>) -> MW {
         let ch = w.connect(node, SERVER, cc, StdApp::new(Side::Client, plan(LENS[i])));
         w.settle_conn(node, ch);
         conns.push((node, ch));
+        serials.push(w.nodes[node].conns[&ch].serial);
     }
-    MW { w, conns, cfg, keylog }
+    MW { w, conns, serials, cfg, keylog }
 }
 
 pub struct Out {
@@ -147,10 +158,11 @@ pub fn run(base: Instant, s: &Scn, devs: &Devs, alts: &[Fate], dump: bool) -> Ou
                     let ch = m.w.connect(node, SERVER, cc, StdApp::new(Side::Client, plan(LENS[3])));
                     m.w.settle_conn(node, ch);
                     m.conns.push((node, ch));
+                    m.serials.push(m.w.nodes[node].conns[&ch].serial);
                 }
             }
             let all_done = m.conns.iter().enumerate().all(|(i, (n, ch))| {
-                closed.contains(&i) || m.w.slot(*n, *ch).map_or(false, |sl| sl.app.tx_complete() && sl.app.obs.connected)
+                closed.contains(&i) || { let _ = (n, ch); slot_i(&m, i).map_or(false, |sl| sl.app.tx_complete() && sl.app.obs.connected) }
             }) && (s.fourth_at.is_none() && !s.fourth_when_forgotten || fourth_done);
             if all_done && m.w.net.is_empty() && s.close.iter().all(|(st, _)| m.w.steps > *st) {
                 break;
@@ -220,7 +232,7 @@ pub fn run(base: Instant, s: &Scn, devs: &Devs, alts: &[Fate], dump: bool) -> Ou
         // ---- stateless resets belong to connections too: for every client connection still alive,
         // the server's stateless reset for the connection ID that connection uses must reach exactly
         // that connection (whatever happened to its neighbours on the same endpoint meanwhile)
-        let pre_lost: Vec<bool> = m.conns.iter().map(|(n, ch)| m.w.slot(*n, *ch).map_or(true, |sl| !sl.app.obs.lost.is_empty())).collect();
+        let pre_lost: Vec<bool> = (0..m.conns.len()).map(|i| slot_i(&m, i).map_or(true, |sl| !sl.app.obs.lost.is_empty())).collect();
         let mut reset_viol = vec![];
         let mut resets_sent = 0u64;
         {
@@ -255,17 +267,17 @@ pub fn run(base: Instant, s: &Scn, devs: &Devs, alts: &[Fate], dump: bool) -> Ou
                 let mut d: Vec<u8> = (0..30).map(|k| 0x40 | ((k * 7 + i) as u8 & 0x3f)).collect();
                 d.extend_from_slice(&tok);
                 let dst = m.w.nodes[n].addr;
-                let others_before: Vec<usize> = (0..m.conns.len()).filter(|j| *j != i).map(|j| m.w.slot(m.conns[j].0, m.conns[j].1).map_or(0, |s| s.app.obs.lost.len())).collect();
+                let others_before: Vec<usize> = (0..m.conns.len()).filter(|j| *j != i).map(|j| slot_i(&m, j).map_or(0, |s| s.app.obs.lost.len())).collect();
                 let seq = m.w.seq;
                 m.w.seq += 1;
                 let at = m.w.t;
                 m.w.deliver(crate::sim::Flight { at, seq, idx: u64::MAX, src: srv_addr, dst, ecn: None, data: d, injected: true });
                 resets_sent += 1;
-                let got = m.w.slot(n, ch).map_or(vec![], |s| s.app.obs.lost.iter().map(|e| format!("{e:?}")).collect::<Vec<_>>());
+                let got = slot_i(&m, i).map_or(vec![], |s| s.app.obs.lost.iter().map(|e| format!("{e:?}")).collect::<Vec<_>>());
                 if !got.iter().any(|l| l.contains("Reset")) {
                     reset_viol.push(("stateless-reset-not-routed".into(), format!("client connection {i} (node{n}, remote CID {cid:02x?}): the server's stateless reset for that CID did not reach it (lost={got:?})")));
                 }
-                let others_after: Vec<usize> = (0..m.conns.len()).filter(|j| *j != i).map(|j| m.w.slot(m.conns[j].0, m.conns[j].1).map_or(0, |s| s.app.obs.lost.len())).collect();
+                let others_after: Vec<usize> = (0..m.conns.len()).filter(|j| *j != i).map(|j| slot_i(&m, j).map_or(0, |s| s.app.obs.lost.len())).collect();
                 if others_before != others_after {
                     reset_viol.push(("stateless-reset-hit-other-connection".into(), format!("the stateless reset for client connection {i} ended another connection")));
                 }
@@ -324,7 +336,7 @@ pub fn run(base: Instant, s: &Scn, devs: &Devs, alts: &[Fate], dump: bool) -> Ou
             }
             // ---- isolation and integrity per connection
             for (i, (n, ch)) in m.conns.iter().enumerate() {
-                let Some(sl) = m.w.slot(*n, *ch) else { continue };
+                let Some(sl) = slot_i(&m, i) else { continue };
                 for v in &sl.app.obs.violations {
                     viol.push(("app-oracle".into(), format!("client connection {i}: {v}")));
                 }
